@@ -22,6 +22,7 @@ import Golib.Proof.C18GraphR
 import Golib.Proof.C18Int64
 import Golib.Proof.C18Brute
 import Golib.Proof.C18KnapH
+import Golib.Proof.C18Knap64
 
 namespace Golib.C18
 
@@ -304,6 +305,110 @@ theorem c18_solvers_int64 {α : Type} (br : Option (List α → List α → Bool
 example : absSum (fun x : Int => x) [4611686018427387904, 4611686018427387903] < (2 : Int) ^ 63 ∧
     knapsackGo none (fun _ => 1) (fun x : Int => x) 2 [4611686018427387904, 4611686018427387903]
       = some [4611686018427387904, 4611686018427387903] := by decide
+
+/-! ### Go `int`: the 64-bit twin (arguments at the edge of `int`)
+
+`knapsack64 add` performs the `int` arithmetic of `Knapsack` the way the machine does: `maxWeight+1`,
+`i-w`, `i--` wrap around (`wrap64`), `make` with a negative length and every index outside the
+table panic (`Run.panic`), the score addition is `add` (`add64` = the machine's, `(· + ·)` = the
+ideal one).  `solversVA add` is `FindDpSolvers` with its one addition `currentValue + value` = `add`. -/
+
+/-- WEIGHTS NEED NO GUARD.  For every 64-bit limit `W < math.MaxInt` (so that `maxWeight+1` is an
+`int`) and ALL 64-bit weights — `math.MaxInt`, `1<<62`, zero, negative — the wrapping index
+arithmetic of the code computes exactly what the ideal-integer model `knapsackGo` computes (the
+same selection, or a panic exactly where the model panics; the model never runs out of fuel):
+the code compares `i >= w` before it forms `i-w` and never adds a weight to anything.  So all
+Knapsack theorems above hold of the code for arbitrarily large weights; a change that SUMS weights
+(a remaining-weight bound, `i+w`, a total-weight shortcut) leaves this theorem's reach. -/
+theorem c18_knapsack_int64_weights {α : Type} (br : Option (List α → List α → Bool)) (wf vf : α → Int)
+    (W : Int) (items : List α) (hW : fitsInt64 W) (hW' : W < maxInt)
+    (hw : ∀ x ∈ items, fitsInt64 (wf x)) :
+    knapsack64 (· + ·) br wf vf W items = Run.ofOption (knapsackGo br wf vf W items) := by
+  rw [fitsInt64_iff] at hW
+  unfold maxInt at hW'
+  exact knapsack64_eq (· + ·) br wf vf W items hW.1 hW'
+    (fun x hx => (fitsInt64_iff _).mp (hw x hx)) (fun _ _ _ => rfl)
+
+/-- VALUES ARE SUMMED, under the guard.  With the machine's wrapping addition for
+`dp[i-w].score + value` as well, the twin equals the ideal-integer model whenever the sum of the
+absolute values is `< 2^63` (every sum the code forms is then the total of a sub-selection and
+fits) — again for all 64-bit weights and limits `< math.MaxInt`. -/
+theorem c18_knapsack_int64_exact {α : Type} (br : Option (List α → List α → Bool)) (wf vf : α → Int)
+    (W : Int) (items : List α) (hW : fitsInt64 W) (hW' : W < maxInt)
+    (hw : ∀ x ∈ items, fitsInt64 (wf x)) (hg : absSum vf items < (2 : Int) ^ 63) :
+    knapsack64 add64 br wf vf W items = Run.ofOption (knapsackGo br wf vf W items) := by
+  rw [fitsInt64_iff] at hW
+  unfold maxInt at hW'
+  refine knapsack64_eq add64 br wf vf W items hW.1 hW'
+    (fun x hx => (fitsInt64_iff _).mp (hw x hx)) ?_
+  intro t x ht
+  apply add64_of_fits
+  have := totals_fit_int64 vf items hg (t ++ [x]) ht
+  rw [isum_snoc] at this
+  exact this
+
+/-- The property clause, stated directly on the 64-bit twin: for a limit `0 ≤ W < math.MaxInt`,
+non-negative 64-bit weights of ANY size and values under the guard, the wrapping code returns a
+selection (no panic, enough fuel) that uses each item at most once, whose TRUE total weight (an
+unbounded sum — it may exceed every `int`) is within the limit, and whose value is maximal among
+all such selections. -/
+theorem c18_knapsack_int64_property {α : Type} (br : Option (List α → List α → Bool)) (wf vf : α → Int)
+    (W : Int) (items : List α) (hW : 0 ≤ W) (hW' : W < maxInt)
+    (hw : ∀ x ∈ items, 0 ≤ wf x ∧ fitsInt64 (wf x)) (hg : absSum vf items < (2 : Int) ^ 63) :
+    ∃ sel, knapsack64 add64 br wf vf W items = Run.ok sel ∧ sel.Sublist items ∧ isum wf sel ≤ W ∧
+      ∀ t : List α, t.Sublist items → isum wf t ≤ W → isum vf t ≤ isum vf sel := by
+  obtain ⟨sel, h1, h2, h3, h4⟩ := knapsackGo_spec br wf vf W items hW (fun x hx => (hw x hx).1)
+  refine ⟨sel, ?_, h2, h3, h4⟩
+  have hf : fitsInt64 W := by
+    rw [fitsInt64_iff]; unfold maxInt at hW'; omega
+  rw [c18_knapsack_int64_exact br wf vf W items hf hW' (fun x hx => (hw x hx).2) hg, h1]
+  rfl
+
+/-- `FindDpSolvers` with the machine's wrapping `currentValue + value` returns the same map as with
+the ideal addition, for positive values whose sum is `< 2^63` (the guard: here values ARE summed),
+every `maxValue` (up to and including `math.MaxInt`: it is only compared), every iteration order and
+tie-breaker. -/
+theorem c18_solvers_int64_exact {α : Type} (br : Option (List α → List α → Bool)) (maxV : Int)
+    (allowOver : Bool) (vf : α → Int) (ord1 ord2 : Nat → List Int → List Int)
+    (hord1 : ∀ i l, (ord1 i l).Perm l) (hord2 : ∀ i l, (ord2 i l).Perm l)
+    (items : List α) (hpos : ∀ x ∈ items, 0 < vf x) (hg : absSum vf items < (2 : Int) ^ 63) :
+    solversVA add64 br maxV allowOver vf ord1 ord2 items = solversV br maxV allowOver vf ord1 ord2 items := by
+  refine solversVA_eq add64 br maxV allowOver vf ord1 ord2 hord1 hord2 items hpos ?_
+  intro t x ht
+  apply add64_of_fits
+  have := totals_fit_int64 vf items hg (t ++ [x]) ht
+  rw [isum_snoc] at this
+  exact this
+
+-- limit 10, weights 4, MaxInt, MaxInt, 6: the two unpackable items in the middle do not disturb the
+-- optimum {4/5, 6/6}; four items of weight 2^62 neither; a negative weight and the limit -1 panic
+example : knapsack64 add64 none (fun x : Int × Int => x.1) (fun x => x.2) 10
+      [(4, 5), (9223372036854775807, 1), (9223372036854775807, 1), (6, 6)] = Run.ok [(4, 5), (6, 6)] ∧
+    knapsack64 add64 none (fun x : Int × Int => x.1) (fun x => x.2) 7
+      [(4611686018427387904, 3), (4, 5), (4611686018427387904, 3), (3, 4), (4611686018427387904, 3),
+        (4611686018427387904, 3)] = Run.ok [(4, 5), (3, 4)] ∧
+    knapsack64 add64 none (fun x : Int × Int => x.1) (fun x => x.2) 3 [(1, 2), (-1, 4)] = Run.panic ∧
+    knapsack64 add64 none (fun x : Int × Int => x.1) (fun x => x.2) (-1) [(1, 2)] = Run.panic ∧
+    knapsack64 add64 none (fun x : Int × Int => x.1) (fun x => x.2) (-1) [] = Run.panic := by decide
+
+-- what a SUM of such weights would be on the machine: MaxInt + MaxInt = -2, 4·2^62 = 0, 2^62 + 2^62 =
+-- MinInt — and beyond the value guard the twin really differs from the ideal model (2^62 + 2^62 wraps
+-- to MinInt, so the second item is not taken): the guard of `c18_knapsack_int64_exact` is needed
+example : wrap64 (9223372036854775807 + 9223372036854775807) = -2 ∧
+    wrap64 (4 * 4611686018427387904) = 0 ∧
+    wrap64 (4611686018427387904 + 4611686018427387904) = -9223372036854775808 ∧
+    knapsack64 add64 none (fun _ : Int => 1) (fun x => x) 2 [4611686018427387904, 4611686018427387904]
+      = Run.ok [4611686018427387904] ∧
+    knapsackGo none (fun _ : Int => 1) (fun x => x) 2 [4611686018427387904, 4611686018427387904]
+      = some [4611686018427387904, 4611686018427387904] := by decide
+
+-- subset sums at the guard: values 2^63 - 8, 3, 4 (total 2^63 - 1 = MaxInt), maxValue = MaxInt
+example : solversVA add64 none 9223372036854775807 false (fun x : Int => x) (fun _ l => l) (fun _ l => l.reverse)
+      [9223372036854775800, 3, 4] =
+    solversV none 9223372036854775807 false (fun x : Int => x) (fun _ l => l) (fun _ l => l.reverse)
+      [9223372036854775800, 3, 4] ∧
+    (solversVA add64 none 9223372036854775807 false (fun x : Int => x) (fun _ l => l) (fun _ l => l.reverse)
+      [9223372036854775800, 3, 4]).length = 8 := by decide
 
 /-! ### GetMaximalCliques: the shared `P`/`X` array -/
 
